@@ -12,7 +12,7 @@ def run_e1(spec, tier, seed):
     reg = regmod.REG
     c = reg[spec["key"]]
     timeout_ms = 60000 if tier == "quick" else 300000
-    rep = verify(c, reg, imports=getattr(regmod, "IMPORTS", {}), timeout_ms=timeout_ms)
+    rep = verify(c, reg, imports=getattr(regmod, "IMPORTS", {}), timeout_ms=timeout_ms, parallel=spec.get("parallel", 4))
     obs = []
     for ob in rep.obligations:
         d = {
@@ -20,13 +20,11 @@ def run_e1(spec, tier, seed):
             "time_s": round(ob.time_s, 3), "engine": "E1", "property_clause": spec.get("clause", ""),
         }
         if ob.result == "sat":
-            d["solver_output"] = "sat; model (scalars): " + _scalars(ob.model)
-            if c.witness is not None:
-                try:
-                    old, args = rep.entries[ob.info.get("case")]
-                    d["witness"] = c.witness(ob.model, old, args)
-                except Exception as e:  # witness extraction is best effort
-                    d["witness_error"] = repr(e)
+            d["solver_output"] = "sat; model (scalars): " + str(ob.info.get("scalars"))
+            if ob.info.get("witness") is not None:
+                d["witness"] = ob.info["witness"]
+            if ob.info.get("witness_error"):
+                d["witness_error"] = ob.info["witness_error"]
         elif ob.result == "unknown":
             d["solver_output"] = "unknown: " + str(ob.reason)
         obs.append(d)
